@@ -556,7 +556,8 @@ def trace_validate(module, cfg, workdir, trace_path, cases_path, env=None, timeo
                 events = read_ndjson(trace_path)
                 if 1 <= n <= len(events):
                     ev = events[n - 1]
-                    msgs = [x.strip() for x in re.findall(r"^Error: (.*)$", out, re.M)][:3]
+                    m = re.search(r"error in the spec or model\.\s*(.*?)\nError: The behavior up to this point", out, re.S)
+                    msgs = [m.group(1).strip()[:1500]] if m else [x.strip() for x in re.findall(r"^Error: (.*)$", out, re.M)][:3]
                     rejects = [json.loads(x) for x in res["tagged"].get("REJECT", [])]
                     rejects.append({"l": n, "case": ev.get("case"), "tags": ["spec-cannot-explain-event"], "tlc": msgs})
                     print("[check] %s: the specification could not be evaluated on event %d; reported as a rejection of that event "
